@@ -4,7 +4,7 @@
 From Coq Require Import ZArith Ascii String Bool List Lia.
 Import ListNotations.
 Require Import MD.Gen.CodecTables MD.Codec.Model MD.Codec.Proofs MD.Codec.RestartProofs.
-Require Import MD.Codec.XtcModel MD.Codec.XtcProofs MD.Codec.XtcFrameProofs.
+Require Import MD.Codec.XtcModel MD.Codec.XtcProofs MD.Codec.XtcFrameProofs MD.Codec.NumProofs MD.Codec.MdcrdProofs.
 Open Scope Z_scope.
 
 (* Python "%w.pf" % x followed by float(): for EVERY width, precision and binary number the reader gets
@@ -41,6 +41,107 @@ Theorem field_sound : forall w p x s, 0 <= dmag x -> field w p x = Some s ->
   length s = w /\ parse_num s = Some (dneg x, quant p x, p).
 Proof. exact Proofs.field_sound. Qed.
 Print Assumptions field_sound.
+
+(* ---------------------------------------------------------------- unit conversion *)
+(* in_units_of(float32 array, "nanometers", "angstroms"): the number stored is k*x rounded to binary32, i.e.
+   m' * 2^(e+sh) with |m'*2^sh - k*m| <= 2^sh / 2, and within a relative 2^-24 of k*x in the normal range *)
+Theorem units_exact : forall k x, 0 < k -> 0 <= dmag x ->
+  exists sh m', 0 <= sh /\ f32_mul k x = Dy (dneg x) m' (dexp x + sh) /\
+    2 * Z.abs (m' * 2 ^ sh - k * dmag x) <= 2 ^ sh /\
+    (-149 - dexp x <= bitlen (dmag x * k) - 24 -> 2 ^ 24 * Z.abs (m' * 2 ^ sh - k * dmag x) <= k * dmag x).
+Proof. exact NumProofs.unit_scaling_error. Qed.
+Print Assumptions units_exact.
+
+(* every writable extension of the property is dispatched by Trajectory._savers to a file class with a known
+   distance unit (finite statement about the tables regenerated from /repo) *)
+Theorem units_table_complete :
+  map unit_of_ext [".h5"; ".xtc"; ".trr"; ".dcd"; ".nc"; ".netcdf"; ".ncdf"; ".mdcrd"; ".crd"; ".xyz"; ".xyz.gz";
+                   ".lammpstrj"; ".gro"; ".pdb"; ".pdb.gz"; ".dtr"; ".rst7"; ".ncrst"]%string =
+  map Some [false; false; false; true; true; true; true; true; true; true; true; true; false; true; true; true; true; true].
+Proof. vm_compute. reflexivity. Qed.
+Print Assumptions units_table_complete.
+
+(* widths and precisions the formats are stated to have (AMBER crd F8.3, PDB 8.3 / CRYST1 9.3 7.2, gro
+   precision+5, rst7 F12.7, xtc precision 1000): a change of any of them in /repo breaks this obligation *)
+Theorem format_standards :
+  (mdcrd_w, mdcrd_p, mdcrd_per_line, mdcrd_rw, mdcrd_box_w, mdcrd_box_p) = (8, 3, 10, 8, 8, 3)%nat /\
+  (pdb_w, pdb_p, f83_cut, cryst_len_w, cryst_len_p, cryst_ang_w, cryst_ang_p) = (8, 3, 8, 9, 3, 7, 2)%nat /\
+  (gro_extra, gro_box_w, gro_box_p, gro_coord_col, xyz_w, xyz_p, lammps_w, lammps_p, rst7_w, rst7_p)
+    = (5, 10, 5, 20, 8, 3, 8, 3, 12, 7)%nat /\
+  (xtc_prec, xtc_firstidx, xtc_raw_max_atoms, ang_per_nm) = (1000, 9, 9, 10).
+Proof. repeat split. Qed.
+Print Assumptions format_standards.
+
+(* ---------------------------------------------------------------- PDB *)
+(* _format_83: always 8 characters; the reader gets the sign and the digits that survive the cut
+   (f83_kept decimals), truncated from the correctly rounded 3-decimal value -- never anything else *)
+Theorem format_83_sound : forall x s, 0 <= dmag x -> format_83 x = Some s ->
+  length s = 8%nat /\ parse_num s = Some (f83_num x) /\ (f83_kept x <= 3)%nat /\
+  let d := 10 ^ Z.of_nat (3 - f83_kept x) in
+  let q' := quant 3 x / d in
+  q' * d <= quant 3 x < (q' + 1) * d.
+Proof. exact NumProofs.format_83_sound. Qed.
+Print Assumptions format_83_sound.
+
+Theorem pdb_cols_roundtrip : forall x y z cols,
+  0 <= dmag x -> 0 <= dmag y -> 0 <= dmag z ->
+  pdb_atom_cols [x; y; z] = Some cols ->
+  length cols = 24%nat /\ pdb_read_cols cols = Some [f83_num x; f83_num y; f83_num z].
+Proof. exact NumProofs.pdb_cols_roundtrip. Qed.
+Print Assumptions pdb_cols_roundtrip.
+
+(* ---------------------------------------------------------------- xyz / lammpstrj / gro lines *)
+Theorem tok_roundtrip : forall w p xyz, (1 <= p)%nat -> Forall (fun x => 0 <= dmag x) xyz ->
+  tok_read (tok_coords w p xyz) = Some (map (qnum p) xyz).
+Proof. exact MdcrdProofs.tok_roundtrip. Qed.
+Print Assumptions tok_roundtrip.
+
+Theorem gro_cols_roundtrip : forall p x y z fx fy fz, (1 <= p)%nat ->
+  0 <= dmag x -> 0 <= dmag y -> 0 <= dmag z ->
+  field (p + gro_extra) p x = Some fx -> field (p + gro_extra) p y = Some fy -> field (p + gro_extra) p z = Some fz ->
+  gro_coord_cols p [x; y; z] = fx ++ fy ++ fz /\
+  gro_read_cols (fx ++ fy ++ fz) = Some [qnum p x; qnum p y; qnum p z].
+Proof. exact MdcrdProofs.gro_cols_roundtrip. Qed.
+Print Assumptions gro_cols_roundtrip.
+
+(* ---------------------------------------------------------------- mdcrd *)
+(* The repaired reader (a peeked line that is not three numbers is not a box line) returns exactly the
+   quantised numbers of every frame the writer wrote: with boxes for every atom count, without boxes for
+   n_atoms >= 2 under has_box="detect" and for every atom count when has_box=False is given. *)
+Theorem mdcrd_layout : forall n hb frames lines,
+  (1 <= n)%nat -> Forall (frame_wf n) frames -> mdcrd_file_lines frames = Some lines ->
+  ((Forall has_box frames /\ hb <> HBfalse) \/
+   (Forall no_box frames /\ hb <> HBtrue /\ (hb = HBdetect -> (2 <= n)%nat))) ->
+  mdcrd_read_fix hb n lines = Ok (map mdcrd_expect frames).
+Proof. exact MdcrdProofs.mdcrd_layout. Qed.
+Print Assumptions mdcrd_layout.
+
+(* as found and repaired alike: one atom, no box, "detect": the next frame's line is taken for a box
+   (the format is ambiguous; md.load cannot pass has_box) *)
+Theorem mdcrd_layout_one_atom_refuted : forall strict,
+  exists lines, mdcrd_file_lines one_atom_frames = Some lines /\
+    mdcrd_read strict HBdetect 1 lines <> Ok (map mdcrd_expect one_atom_frames) /\
+    mdcrd_read strict HBfalse 1 lines = Ok (map mdcrd_expect one_atom_frames).
+Proof. exact MdcrdProofs.mdcrd_layout_one_atom_refuted. Qed.
+Print Assumptions mdcrd_layout_one_atom_refuted.
+
+(* as found: a full-width field in the next frame's first line makes float() of the joined token raise *)
+Theorem mdcrd_layout_current_refuted :
+  exists lines, mdcrd_file_lines wide_field_frames = Some lines /\
+    mdcrd_read_cur HBdetect 2 lines = Er EValue /\
+    mdcrd_read_fix HBdetect 2 lines = Ok (map mdcrd_expect wide_field_frames).
+Proof. exact MdcrdProofs.mdcrd_layout_current_refuted. Qed.
+Print Assumptions mdcrd_layout_current_refuted.
+
+(* non-vacuity of mdcrd_layout: a well-formed 2-atom, 2-frame file without box *)
+Example mdcrd_layout_example :
+  Forall (frame_wf 2) wide_field_frames /\ Forall no_box wide_field_frames /\
+  exists lines, mdcrd_file_lines wide_field_frames = Some lines.
+Proof.
+  split; [|split; [repeat constructor|eexists; vm_compute; reflexivity]].
+  repeat constructor; cbn; lia.
+Qed.
+Print Assumptions mdcrd_layout_example.
 
 (* multi-file restart writers, repaired variant: file i holds frame i's payload, time and cell *)
 Theorem restart_indexing : forall (P T C : Type) (cells : option (list C)) (frames : list (P * T)),
